@@ -795,7 +795,10 @@ def gen_dialog_case(g, tier, c17=None):
         # concurrent dialogs whose Call-IDs (and now and then tags) are extensions of one another
         if g.chance(0.35):
             o = ds[g.rint(0, j - 1)]
-            ds[j].callid = o.callid + g.pick(["0", "-1", "x", ".b", "1"])
+            cid = o.callid + g.pick(["0", "-1", "x", ".b", "1"])
+            if any(x.callid == cid for x in ds):
+                continue          # (two entries of the case must stay two dialogs)
+            ds[j].callid = cid
             if g.chance(0.3):
                 ds[j].ftag, ds[j].ttag = o.ftag, o.ttag
             g.count("dlg_callid_extends_another")
